@@ -189,8 +189,10 @@ class BaseClient:
         variables: Dict[str, Any],
         **kwargs: Any,
     ) -> httpx.Response:
-        headers: Dict[str, str] = {"Content-Type": "application/json"}
+        headers: Dict[str, str] = {}
         headers.update(kwargs.get("headers", {}))
+        if not any(name.lower() == "content-type" for name in headers):
+            headers = {"Content-Type": "application/json", **headers}
 
         merged_kwargs: Dict[str, Any] = kwargs.copy()
         merged_kwargs["headers"] = headers
